@@ -69,7 +69,12 @@ fn run_pair(t: &mut Trace, prog: &str, ast: Option<&Ast>, tpl: &str, input: &V, 
             dupsens = 1;
         }
     }
-    t.emit(json!({"e":"run","tier":tier,"prog":prog,"tpl":tpl,"ast":astv,"in":inv,"oe":oe,"og":og,"r":r,"dupsens":dupsens,"sens_e":sens_e,"sens_g":sens_g,
+    let mut mo = std::collections::BTreeSet::new();
+    if let Some(a) = ast {
+        multi_arg_causes(a, &mut mo);
+    }
+    let mo: Vec<String> = mo.into_iter().collect();
+    t.emit(json!({"e":"run","tier":tier,"prog":prog,"tpl":tpl,"mo":mo,"ast":astv,"in":inv,"oe":oe,"og":og,"r":r,"dupsens":dupsens,"sens_e":sens_e,"sens_g":sens_g,
                   "dup": if input.has_dup_keys() {1} else {0}}));
 }
 
